@@ -52,6 +52,12 @@ func (m *IdentMatcher) PartialMatch(ident string, exactCase bool) bool {
 	return strings.HasPrefix(strings.ToLower(ident), strings.ToLower(partial))
 }
 
+// HasPrefix returns true if the IdentMatcher's pattern denotes a path below the given path,
+// e.g. pattern "User.Name" has the prefix "User".
+func (m *IdentMatcher) HasPrefix(path string) bool {
+	return strings.HasPrefix(m.pattern, path+".")
+}
+
 // ForGetter returns true if the path at the given index represents a method that returns a value.
 func (m *IdentMatcher) ForGetter(at int) bool {
 	return strings.HasSuffix(m.paths[at], "()")
